@@ -21,13 +21,14 @@ def Op2.target : Op2 → Bool
   | .copy fs _ => !fs
   | .move fs _ => !fs
 
-def stepM2 (s : Cbuf × Cbuf) : Op2 → Out × (Cbuf × Cbuf)
-  | .on i op => let (o, c') := stepMR (sel s i) op; (o, upd s i c')
+def stepM2 (s : Cbuf × Cbuf) (op : Op2) (pol : Policy := chunkPolicy) : Out × (Cbuf × Cbuf) :=
+  match op with
+  | .on i op => let (o, c') := stepMR (sel s i) op pol; (o, upd s i c')
   | .copy fs len =>
-    let (r, d, dst') := copy (sel s fs) (sel s (!fs)) len
+    let (r, d, dst') := copy (sel s fs) (sel s (!fs)) len pol
     ({ ret := r, ndropped := d }, upd s (!fs) dst')
   | .move fs len =>
-    let (r, d, src', dst') := move (sel s fs) (sel s (!fs)) len
+    let (r, d, src', dst') := move (sel s fs) (sel s (!fs)) len pol
     ({ ret := r, ndropped := d }, upd (upd s fs src') (!fs) dst')
 
 def stepS2 (s : Spec.RFifo × Spec.RFifo) (op : Op2) (implRet : Int) (implSize : Nat) :
